@@ -177,6 +177,51 @@ let run (ws : string list) : string =
     let ((w, rs), out) = ProgRun.run_prog_replay fuel (parse_ms ms) objs (parse_bodies bodies) steps vals in
     let evs = Stdlib.List.rev_map show_event w.Exec.w_trace in
     String.concat " " (evs @ ["T=" ^ show_outcome out; "S=" ^ show_sched w.Exec.w_e.Exec.recorded; "RP=" ^ (if rs.Replay.rp_failed then "failed" else "ok")])
+  | ["scripts"; cap; depth; objs; bodies] ->
+    (* schedules of the MODEL of this program as explicit scripts for the scripted scheduler: the exploring scheduler (an
+       OCaml closure given to the extracted run_exec) follows a forced prefix of choices and then keeps the running task
+       while it is offered (else takes the first offered); every other offered task at every decision is an alternative:
+       a preemption (costs one unit of `depth`) when the running task was offered, free otherwise.  Depth-first, at most
+       `cap` runs, continuing past deadlocks and panics.  The caller runs each script on both sides. *)
+    let cap = int_of_string cap and depth = int_of_string depth in
+    let objs = Stdlib.List.mapi parse_obj (split_on ',' objs) in
+    let main = Prog.compile (nat_of_int (Stdlib.List.length objs)) (parse_bodies bodies) in
+    let store = objs @ [Objects.OJoins []; Objects.OTls []] in
+    let out = ref [] and count = ref 0 in
+    let rec explore (prefix : int list) (budget : int) =
+      if !count < cap then begin
+        incr count;
+        (* state: (remaining forced indices, decisions so far reversed: (n offered, chosen index, current was offered)) *)
+        let sched = { Exec.s_next_task = (fun (forced, log) offered cur _ ->
+            let offi = Stdlib.List.map int_of_nat offered in
+            let n = Stdlib.List.length offi in
+            let rec idx k v = function [] -> None | x :: r -> if x = v then Some k else idx (k + 1) v r in
+            let curi = match cur with Some c -> idx 0 (int_of_nat c) offi | None -> None in
+            if n = 0 then (None, (forced, log)) else
+            let (i, forced') = match forced with
+              | f :: r -> (f mod n, r)
+              | [] -> ((match curi with Some k -> k | None -> 0), []) in
+            (Some (nat_of_int (Stdlib.List.nth offi i)), (forced', (n, i, curi) :: log)));
+          Exec.s_next_u64 = (fun st -> (Some (n_of_int 7), st)) } in
+        let ((_, (_, log)), _) = Exec.run_exec sched Exec.MSNone fuel main store (prefix, []) in
+        let decs = Stdlib.List.rev log in
+        let chosen = Stdlib.List.map (fun (_, i, _) -> i) decs in
+        out := chosen :: !out;
+        let n0 = Stdlib.List.length prefix in
+        Stdlib.List.iteri (fun pos (k, ci, curi) ->
+            if pos >= n0 then begin
+              let cost = match curi with Some _ -> 1 | None -> 0 in
+              if budget >= cost then
+                for alt = 0 to k - 1 do
+                  if alt <> ci then begin
+                    let pre = Stdlib.List.filteri (fun j _ -> j < pos) chosen in
+                    explore (pre @ [alt]) (budget - cost)
+                  end
+                done
+            end) decs
+      end in
+    explore [] depth;
+    String.concat "|" (Stdlib.List.rev_map (fun p -> if p = [] then "-" else String.concat "," (Stdlib.List.map string_of_int p)) !out)
   | ["timelimit"; budget; bits; objs; bodies] ->
     (* bits: one character per clock reading, 1 = the limit was found expired *)
     let expired = Stdlib.List.init (String.length bits) (fun i -> bits.[i] = '1') in
